@@ -115,6 +115,9 @@ type pkgInfo struct {
 	methods    map[string]*ast.FuncDecl // "T.m"
 	byName     map[string][]string      // method name -> types having it
 	mutexField map[string]bool          // "T.f" is a sync.Mutex / sync.RWMutex
+	globals    map[string]bool          // package-level variables
+	funcs      map[string]*ast.FuncDecl // package-level functions (no receiver)
+	tag        string                   // "func" for the root package, "func.<dir>" otherwise
 }
 
 func typeName(e ast.Expr) string {
@@ -129,23 +132,46 @@ func typeName(e ast.Expr) string {
 	return ""
 }
 
-func load(dir string) *pkgInfo {
+func load(dir string, tag string) *pkgInfo {
 	fset := token.NewFileSet()
 	pkgs, err := parser.ParseDir(fset, dir, func(fi os.FileInfo) bool {
-		return !strings.HasSuffix(fi.Name(), "_test.go")
+		if strings.HasSuffix(fi.Name(), "_test.go") {
+			return false
+		}
+		// the production build: files that need the verif tag (instrumentation hooks) are left out
+		if b, err := os.ReadFile(filepath.Join(dir, fi.Name())); err == nil {
+			for _, l := range strings.Split(string(b[:min(len(b), 2000)]), "\n") {
+				l = strings.TrimSpace(l)
+				if strings.HasPrefix(l, "//go:build") && strings.Contains(l, "verif") && !strings.Contains(l, "!verif") {
+					return false
+				}
+				if strings.HasPrefix(l, "package ") {
+					break
+				}
+			}
+		}
+		return true
 	}, 0)
 	if err != nil {
 		fmt.Fprintln(os.Stderr, "lockskel:", err)
 		os.Exit(2)
 	}
 	p := &pkgInfo{structs: map[string]*ast.StructType{}, interfaces: map[string]*ast.InterfaceType{},
-		methods: map[string]*ast.FuncDecl{}, byName: map[string][]string{}, mutexField: map[string]bool{}}
+		methods: map[string]*ast.FuncDecl{}, byName: map[string][]string{}, mutexField: map[string]bool{},
+		globals: map[string]bool{}, funcs: map[string]*ast.FuncDecl{}, tag: tag}
 	for _, pkg := range pkgs {
 		for _, f := range pkg.Files {
 			for _, d := range f.Decls {
 				switch d := d.(type) {
 				case *ast.GenDecl:
 					for _, sp := range d.Specs {
+						if vs, ok := sp.(*ast.ValueSpec); ok && d.Tok == token.VAR {
+							for _, n := range vs.Names {
+								if n.Name != "_" {
+									p.globals[n.Name] = true
+								}
+							}
+						}
 						ts, ok := sp.(*ast.TypeSpec)
 						if !ok {
 							continue
@@ -170,6 +196,8 @@ func load(dir string) *pkgInfo {
 						tn := typeName(d.Recv.List[0].Type)
 						p.methods[tn+"."+d.Name.Name] = d
 						p.byName[d.Name.Name] = append(p.byName[d.Name.Name], tn)
+					} else if d.Recv == nil && d.Body != nil && d.Name.Name != "init" && d.Name.Name != "main" {
+						p.funcs[d.Name.Name] = d
 					}
 				}
 			}
@@ -207,6 +235,9 @@ func (t *fnTrans) classOf(e ast.Expr, sc *scope) (string, bool) {
 	switch x := e.(type) {
 	case *ast.Ident:
 		c, ok := sc.lookup(x.Name)
+		if !ok && t.p.globals[x.Name] {
+			return "global." + x.Name, true // a package-level variable (not shadowed by a local)
+		}
 		if !ok || c == "" {
 			return "", false
 		}
@@ -268,6 +299,8 @@ func (t *fnTrans) expr(e ast.Expr, sc *scope) *stmt {
 		if id, ok := x.(*ast.Ident); ok {
 			if c, ok := sc.lookup(id.Name); ok && c != "" && !strings.HasPrefix(c, "=") {
 				return skip // a local copy / pointer already obtained; the access was at the definition
+			} else if !ok && t.p.globals[id.Name] {
+				return acc("global."+id.Name, false)
 			}
 		}
 		return skip
@@ -304,7 +337,7 @@ func (t *fnTrans) expr(e ast.Expr, sc *scope) *stmt {
 	case *ast.FuncLit:
 		// a closure passed to a call: assumed to run zero or more times during the call
 		inner := &fnTrans{p: t.p}
-		body := inner.block(x.Body.List, &scope{vars: map[string]string{}, parent: sc}, true)
+		body := inner.block(x.Body.List, litScope(x, sc), true)
 		return loop(branch(body, skip))
 	case *ast.CallExpr:
 		return t.call(x, sc)
@@ -334,6 +367,23 @@ func (t *fnTrans) exprNoRoot(e ast.Expr, sc *scope) *stmt {
 	return t.expr(e, sc)
 }
 
+// litScope is the scope of a function literal's body: its parameters and named results are
+// untracked locals (they shadow package-level names).
+func litScope(f *ast.FuncLit, parent *scope) *scope {
+	sc := &scope{vars: map[string]string{}, parent: parent}
+	for _, fl := range []*ast.FieldList{f.Type.Params, f.Type.Results} {
+		if fl == nil {
+			continue
+		}
+		for _, par := range fl.List {
+			for _, n := range par.Names {
+				sc.vars[n.Name] = ""
+			}
+		}
+	}
+	return sc
+}
+
 func (t *fnTrans) args(args []ast.Expr, sc *scope) *stmt {
 	var xs []*stmt
 	for _, a := range args {
@@ -357,7 +407,11 @@ func (t *fnTrans) call(x *ast.CallExpr, sc *scope) *stmt {
 		case "append", "len", "cap", "make", "new", "copy", "panic", "recover", "string", "uint64", "uint32", "int", "int32", "int64", "byte", "float64", "min", "max":
 			return args
 		}
-		// plain function of the package or a conversion: arguments only
+		// plain function of the package: analysed like a method (table entry func.<name>)
+		if _, local := sc.lookup(f.Name); !local && t.p.funcs[f.Name] != nil {
+			return seq(args, &stmt{kind: "Call", s1: "@" + t.p.tag, s2: f.Name})
+		}
+		// a conversion, a function value held in a local, or a function without body
 		return args
 	case *ast.SelectorExpr:
 		meth := f.Sel.Name
@@ -386,8 +440,7 @@ func (t *fnTrans) call(x *ast.CallExpr, sc *scope) *stmt {
 		return seq(t.expr(f.X, sc), args)
 	case *ast.FuncLit:
 		inner := &fnTrans{p: t.p}
-		nsc := &scope{vars: map[string]string{}, parent: sc}
-		return seq(args, inner.block(f.Body.List, nsc, true))
+		return seq(args, inner.block(f.Body.List, litScope(f, sc), true))
 	case *ast.ParenExpr, *ast.ArrayType, *ast.MapType, *ast.StarExpr, *ast.InterfaceType:
 		return args // conversion
 	}
@@ -398,6 +451,9 @@ func (t *fnTrans) call(x *ast.CallExpr, sc *scope) *stmt {
 func (t *fnTrans) write(lhs ast.Expr, sc *scope) *stmt {
 	switch x := lhs.(type) {
 	case *ast.Ident:
+		if _, ok := sc.lookup(x.Name); !ok && t.p.globals[x.Name] {
+			return acc("global."+x.Name, true)
+		}
 		return skip
 	case *ast.SelectorExpr, *ast.IndexExpr, *ast.StarExpr:
 		if c, ok := t.classOf(x, sc); ok {
@@ -726,18 +782,25 @@ func hasBreak(n ast.Node) bool {
 }
 
 func (p *pkgInfo) translate(name string) *stmt {
-	d := p.methods[name]
+	return p.translateDecl(p.methods[name])
+}
+
+func (p *pkgInfo) translateDecl(d *ast.FuncDecl) *stmt {
 	t := &fnTrans{p: p}
 	sc := &scope{vars: map[string]string{}}
-	recv := d.Recv.List[0]
-	if len(recv.Names) == 1 {
-		sc.vars[recv.Names[0].Name] = "=" + typeName(recv.Type)
+	if d.Recv != nil {
+		recv := d.Recv.List[0]
+		if len(recv.Names) == 1 {
+			sc.vars[recv.Names[0].Name] = "=" + typeName(recv.Type)
+		}
 	}
 	for _, par := range d.Type.Params.List {
 		tn := typeName(par.Type)
-		if _, ok := p.structs[tn]; ok {
-			for _, n := range par.Names {
+		for _, n := range par.Names {
+			if _, ok := p.structs[tn]; ok {
 				sc.vars[n.Name] = "=" + tn
+			} else {
+				sc.vars[n.Name] = "" // an untracked local; shadows a package-level name
 			}
 		}
 	}
@@ -795,7 +858,27 @@ func main() {
 	first := true
 	var pairs []string
 	for _, dir := range []string{".", "driver"} {
-		p := load(filepath.Join(repo, dir))
+		tag := "func"
+		if dir != "." {
+			tag = "func." + dir
+		}
+		p := load(filepath.Join(repo, dir), tag)
+		var fnames []string
+		for n := range p.funcs {
+			fnames = append(fnames, n)
+		}
+		sort.Strings(fnames)
+		for _, n := range fnames {
+			s := p.translateDecl(p.funcs[n])
+			if !first {
+				sb.WriteString(";\n")
+			}
+			first = false
+			fmt.Fprintf(&sb, " (%s,\n", q(tag+"."+n))
+			s.coq(&sb, 2)
+			sb.WriteString(")")
+			collect(s, &pairs)
+		}
 		var names []string
 		for n := range p.methods {
 			names = append(names, n)
